@@ -57,6 +57,8 @@ func c13call(name string, args []otto.Value) (otto.Value, string) {
 	return v, ""
 }
 
+const c13maxHelper = `(function(name){var called=[],args=[];for(var i=1;i<arguments.length;i++){(function(i,v){called.push(0);args.push({valueOf:function(){called[i-1]=1;return v}})})(i,arguments[i])}var r=Math[name].apply(null,args);return [r,called.join("")]})`
+
 var c13approx = map[string]bool{"sin": true, "cos": true, "tan": true, "asin": true, "acos": true, "atan": true, "exp": true, "log": true, "pow": true, "atan2": true}
 
 // numTok renders a number result: exact bit pattern, or (approximate family, finite non-zero) the pattern
@@ -134,6 +136,22 @@ func implC13(line string) string {
 			return e
 		}
 		return numTok(f[1], v)
+	case "mxo":
+		// arguments wrapped in objects with a recording valueOf: which ToNumber conversions happen is observable
+		name, _ := otto.ToValue(f[1])
+		args := append([]otto.Value{name}, vals(f[2:])...)
+		v, e := c13call(c13maxHelper, args)
+		if e != "" {
+			return e
+		}
+		o := v.Object()
+		if o == nil {
+			return "not-an-object"
+		}
+		r, _ := o.Get("0")
+		m, _ := o.Get("1")
+		ms, _ := m.ToString()
+		return numTok(f[1], r) + ";" + ms
 	case "isNaN", "isFinite":
 		v, e := c13call(f[0], vals(f[1:]))
 		if e != "" {
@@ -410,6 +428,21 @@ func genMath(c *h.Ctx) {
 			}
 		}
 	}
+	// the same with every argument wrapped in an object with a recording valueOf (which conversions happen)
+	for _, op := range []string{"max", "min"} {
+		c.Add("mxo "+op, "mxo:0")
+		for _, a := range pool {
+			c.Add("mxo "+op+" "+a, "mxo:1")
+			for _, b := range pool {
+				c.Add("mxo "+op+" "+a+" "+b, "mxo:2")
+				for _, d := range pool {
+					if c.Thorough() || c.Rng.Chance(20) {
+						c.Add("mxo "+op+" "+a+" "+b+" "+d, "mxo:3")
+					}
+				}
+			}
+		}
+	}
 	for i := 0; i < c.N(6000, 200000); i++ {
 		n := c.Rng.Intn(6)
 		parts := []string{"mx", []string{"max", "min"}[c.Rng.Intn(2)]}
@@ -421,6 +454,10 @@ func genMath(c *h.Ctx) {
 			}
 		}
 		c.Add(strings.Join(parts, " "), fmt.Sprintf("mx:random%d", n))
+		if c.Rng.Chance(30) {
+			parts[0] = "mxo"
+			c.Add(strings.Join(parts, " "), fmt.Sprintf("mxo:random%d", n))
+		}
 	}
 }
 
